@@ -5,7 +5,11 @@ use tracing::info;
 use crate::lsp::backend::Backend;
 
 pub async fn run_server() -> anyhow::Result<()> {
-    init()?;
+    // A log file that cannot be set up (e.g. the data directory cannot be created)
+    // must not keep the server from starting: it then runs without a log file.
+    if let Err(e) = init() {
+        eprintln!("Logging to file disabled: {}", e);
+    }
 
     info!("Starting version-lsp server");
 
